@@ -1475,11 +1475,21 @@ class Folder:
             if mutates_outer_state(fd):
                 raise Unfoldable(f"function {node.func.id} modifies its arguments (aliasing is not modelled)")
             params = [a.arg for a in fd.args.args]
+            recv_obj = None
             if "." in node.func.id and params and params[0] in ("self", "cls"):
+                # a method followed on a receiver that is a model object in this environment (not an attribute table):
+                # the callee sees the same object under its own first parameter
+                rn_ = node.func.id.split(".")[0]
+                from .gf2 import EvalObj as _EvalObj
+
+                if rn_ in self.names and isinstance(self.names[rn_], _EvalObj):
+                    recv_obj = (params[0], self.names[rn_])
                 params = params[1:]
             if len(node.args) > len(params) or node.keywords and any(k.arg not in params for k in node.keywords):
                 raise Unfoldable(f"call {node.func.id}: arguments do not bind")
             env: Dict[str, Any] = {}
+            if recv_obj is not None:
+                env[recv_obj[0]] = recv_obj[1]
             for p_, a in zip(params, node.args):
                 env[p_] = self.fold(a)
             for k in node.keywords:
@@ -2047,6 +2057,43 @@ class Folder:
 
                         return _mk(dims)
                 return 0 if short == "zeros" else 1  # a constant tensor of any shape, as a broadcasting scalar
+            if short == "full_like" and len(node.args) == 2 and all(k.arg in ("dtype", "device") for k in node.keywords):
+                # the fill value is created in the dtype of the first argument (or the dtype given): an integer tensor
+                # truncates a fractional value, a boolean one keeps only its truth value
+                like, fv = self.fold(node.args[0]), self.fold(node.args[1])
+                if isinstance(fv, list) or not isinstance(fv, (int, float, complex, bool)):
+                    raise Unfoldable("full_like with a non-scalar value")
+                dk = next((k.value for k in node.keywords if k.arg == "dtype"), None)
+                if dk is not None:
+                    if not (isinstance(dk, ast.Attribute) and unparse(dk).startswith("torch.")):
+                        raise Unfoldable("full_like with a computed dtype")
+                    fv = apply_dtype(fv, unparse(dk))
+                else:
+                    leaves = []
+
+                    def _lv(z):
+                        if isinstance(z, list):
+                            for y_ in z:
+                                _lv(y_)
+                        else:
+                            leaves.append(z)
+
+                    _lv(like)
+                    if not leaves:
+                        raise Unfoldable("full_like of an empty value")
+                    if isinstance(like, BoolList) or all(isinstance(z, bool) for z in leaves):
+                        return _mask(_ew(lambda x, b_=(1.0 if fv else 0.0): b_, like))
+                    elif all(isinstance(z, int) and not isinstance(z, bool) for z in leaves):
+                        if isinstance(fv, complex):
+                            raise Unfoldable("complex fill of an integer tensor")
+                        if fv != fv or fv in (float("inf"), float("-inf")):
+                            raise Unfoldable("non-finite fill of an integer tensor")
+                        fv = int(fv)
+                    elif any(isinstance(z, complex) for z in leaves):
+                        fv = complex(fv)
+                    else:
+                        fv = float(fv) if not isinstance(fv, complex) else fv
+                return _ew(lambda x, fv=fv: fv, like)
             if short in ("zeros_like",) and node.args:
                 return _ew(lambda x: 0.0, self.fold(node.args[0]))
             if short in ("ones_like",) and node.args:
